@@ -127,7 +127,9 @@ class Ctx:
         self.seed = seed
         self.rng = random.Random((seed, pid).__hash__() if False else f"{seed}:{pid}")
         self.t0 = time.time()
-        self.bdir = os.path.join(BUILD, pid)
+        # runs against a scratch checkout (seeded changes) build elsewhere, so that they
+        # cannot wipe the build directory of a concurrent run against /repo
+        self.bdir = os.path.join(BUILD, "scratch_build", pid) if _SCR else os.path.join(BUILD, pid)
         shutil.rmtree(self.bdir, ignore_errors=True)
         os.makedirs(self.bdir, exist_ok=True)
         os.makedirs(EVID, exist_ok=True)
